@@ -349,6 +349,12 @@ class Tensor(object):
             return SReal(_opq_real("item", self))
         raise OutOfSubset("item() of kind %s" % self.kind)
 
+    def _as_pos(self):
+        """z3: this (single, real) fibre scalar is > 0"""
+        if self.kind != "sc" or not self.v.is_real():
+            raise OutOfSubset("positivity of %s" % self.kind)
+        return self.v.re > 0
+
     def _as_bool_expr(self):
         if not self.single():
             raise RuntimeError("Boolean value of Tensor with more than one value is ambiguous")
@@ -1307,8 +1313,63 @@ def tensor(data, dtype=None, device=None, requires_grad=False):
     if isinstance(data, complex):
         return Tensor("sc", Sc.of(data), (), dtype or complex64)
     if isinstance(data, (list, tuple)):
-        return Tensor("opq", ("const", repr(data)), (len(data),), dtype or float32)
+        return Const(data, dtype or float32)
     raise OutOfSubset("torch.tensor(%r)" % (type(data),))
+
+
+def _const_shape(data):
+    if isinstance(data, (list, tuple)):
+        if not data:
+            return (0,)
+        return (len(data),) + _const_shape(data[0])
+    return ()
+
+
+class Const(Tensor):
+    """a tensor of known (or symbolic-scalar) entries given as nested lists: coefficient tables"""
+
+    def __init__(self, data, dtype_=None):
+        Tensor.__init__(self, "opq", ("const", repr(data)), _const_shape(data), dtype_ or float32)
+        self.data_ = data
+
+    def to(self, *a, **k):
+        dt = k.get("dtype")
+        for x in a:
+            if isinstance(x, dtype):
+                dt = x
+        return Const(self.data_, dt or self.dtype)
+
+    def detach(self):
+        return self
+
+    def clone(self):
+        return self
+
+    def _sub(self, d):
+        if isinstance(d, (list, tuple)):
+            return Const(list(d), self.dtype)
+        return Tensor("sc", Sc.of(d), (), self.dtype)
+
+    def __getitem__(self, i):
+        if isinstance(i, (int, slice)):
+            return self._sub(self.data_[i])
+        if isinstance(i, SInt):
+            from .core import concrete_int
+            v = concrete_int(i)
+            if v is not None:
+                return self._sub(self.data_[v])
+        raise OutOfSubset("index %r into a constant table" % (i,))
+
+    def __iter__(self):
+        return iter(self._sub(d) for d in self.data_)
+
+    def __len__(self):
+        return len(self.data_)
+
+    def entries(self):
+        if self.ndim != 1:
+            raise OutOfSubset("entries() of a %d-D table" % self.ndim)
+        return [Sc.of(d) for d in self.data_]
 
 
 def as_tensor(data, dtype=None, device=None):
@@ -1386,12 +1447,26 @@ def cat(ts, dim=0):
 
 
 def stack(ts, dim=0):
+    from .seq import GhostList
+    if isinstance(ts, GhostList) and ts.has_hidden():
+        first = (ts.items + ts.tail + [ts.hidden_last])[0]
+        if first is None:
+            raise OutOfSubset("stack of a list whose elements are all hidden")
+        nd = len(first._shape) + 1
+        d = _norm_axis(dim, nd)
+        shape = list(first._shape)
+        shape.insert(d, dim_simpl(ts.pv_len()))
+        r = Tensor("opq", ("stack", ctx().fresh("stack")), shape, first.dtype)
+        r._stack_of = (ts.snapshot(), d)
+        return r
     ts = list(ts)
     nd = len(ts[0]._shape) + 1
     d = _norm_axis(dim, nd)
     shape = list(ts[0]._shape)
     shape.insert(d, len(ts))
-    return _opaque_result("stack", ts, shape, ts[0].dtype)
+    r = _opaque_result("stack", ts, shape, ts[0].dtype)
+    r._stack_of = (ts, d)
+    return r
 
 
 def einsum(eq, *ops):
@@ -1452,7 +1527,69 @@ def _einsum_opaque(eq, ops):
 
 
 def matmul(a, b):
+    if hasattr(a, "_pv_matmul"):
+        return a._pv_matmul(b)
+    if hasattr(b, "_pv_rmatmul"):
+        return b._pv_rmatmul(a)
     raise OutOfSubset("torch.matmul on abstract tensors (use a domain-specific harness)")
+
+
+class RowBlock(object):
+    """A 2-D buffer (nrows, n) whose rows are abstract vectors: models `torch.empty((k, n))` that is filled
+    row by row (K[s] = ...), sliced by rows (K[:s]) and contracted with a coefficient vector
+    (K[:s].T @ a  ==  sum_j a_j K_j).  Rows that were never written are `None` (reading them is an error)."""
+
+    def __init__(self, nrows, row_shape, dtype_=None, rows=None, transposed=False):
+        self.rows = rows if rows is not None else [None] * nrows
+        self.row_shape = Size(row_shape)
+        self.dtype = dtype_ or float64
+        self.device = _cpu
+        self.transposed = transposed
+        self.writes = []
+
+    @property
+    def shape(self):
+        s = Size((len(self.rows),) + tuple(self.row_shape))
+        return Size(tuple(reversed(s))) if self.transposed else s
+
+    def __setitem__(self, i, val):
+        if self.transposed or not isinstance(i, int):
+            raise OutOfSubset("row-block write with index %r" % (i,))
+        if not isinstance(val, Tensor) or not (val._shape == self.row_shape):
+            raise RuntimeError("shape mismatch writing a row")
+        self.rows[i] = val
+        self.writes.append(i if i >= 0 else len(self.rows) + i)
+
+    def __getitem__(self, i):
+        if self.transposed:
+            raise OutOfSubset("indexing a transposed row block")
+        if isinstance(i, slice):
+            return RowBlock(0, self.row_shape, self.dtype, rows=self.rows[i])
+        if isinstance(i, int):
+            r = self.rows[i]
+            if r is None:
+                raise OutOfSubset("read of a row that was never written (uninitialised memory)")
+            return r
+        raise OutOfSubset("row-block index %r" % (i,))
+
+    @property
+    def T(self):
+        return RowBlock(0, self.row_shape, self.dtype, rows=self.rows, transposed=not self.transposed)
+
+    def _pv_matmul(self, coef):
+        if not self.transposed:
+            raise OutOfSubset("matmul of an untransposed row block")
+        if not isinstance(coef, Const) or coef.ndim != 1 or len(coef) != len(self.rows):
+            raise RuntimeError("mat1 and mat2 shapes cannot be multiplied")
+        tot = None
+        for r, cf in zip(self.rows, coef.entries()):
+            if r is None:
+                raise OutOfSubset("read of a row that was never written (uninitialised memory)")
+            term = mul(r, Tensor("sc", cf, (), r.dtype))
+            tot = term if tot is None else add(tot, term)
+        if tot is None:
+            return Tensor("sc", Sc(0), self.row_shape, self.dtype)
+        return tot
 
 
 def finfo(dt):
